@@ -81,7 +81,7 @@ def main():
     notes = os.path.join(out, "NOTES.md")
     if os.path.exists(notes):
         txt = open(notes).read()
-        meta["agent_notes_excerpt"] = txt[:3000] if a.n <= 2 else txt[-4000:]
+        meta["agent_notes_excerpt"] = txt[:7000]
     print(json.dumps({k: meta[k] for k in ("property", "variant", "confirmed", "kept", "caught_by")}, indent=1))
     if ok:
         d = os.path.join(VERIF, "seeded", "%s-%d" % (a.prop, a.n))
